@@ -99,6 +99,8 @@ DoBase(sc, st0, a) ==
     IN CASE a = "ok"            -> Reply(sc, st, "result", "", m)
          [] a = "ok-nil"        -> Reply(sc, st, "result", "", m)
          [] a \in {"ok-bad", "ok-bad-reserr", "ok-bad-wrapped"} -> Reply(sc, st, "error", "system.internalError", FALSE)   \* unmarshalable result, whatever error the encoder reports
+         \* the encoder of the supplied value panics: nothing was sent, the recover answers
+         [] a \in {"ok-panic-marshal", "model-panic-marshal", "error-panic-data"} -> Panic(st, "other")
          [] a = "resource"      -> Reply(sc, st, "resource", "", m)
          [] a = "resource-bad"  -> Panic(st, "other")                                      \* invalid rid
          [] a \in {"error-res", "error-res-ctl"}     -> Reply(sc, st, "error", "custom.error", m)
@@ -146,6 +148,9 @@ DoBase(sc, st0, a) ==
          [] a = "ev-delete"     -> Emit(sc, st, "delete", sc.ap.delete)
          [] a = "ev-reaccess"   -> IF sc.pubfail THEN st ELSE Publish(st, "event", "reaccess")
          [] a = "ev-reset"      -> Publish(st, "reset", "reset")
+         \* Service.TokenReset from inside a handler: one system.tokenReset message unless no token id is given
+         [] a \in {"tokenreset", "tokenreset-empty", "tokenreset-mixed", "tokenreset-dup"} -> Publish(st, "tokenreset", "tokenReset")
+         [] a = "tokenreset-none" -> st
          [] a = "value"         -> st                       \* nested Value(): runs the get handler in memory, publishes nothing
          [] a = "requirevalue-missing" -> Panic(st, "system.notFound")   \* RequireValue without get handler panics with the *Error
          [] a = "panic-res"     -> Panic(st, "custom.panic")
